@@ -986,9 +986,18 @@ func (w *Writer) needsParens(child ir.ExpressionHandle) bool {
 		// A scalar-condition select is written as `c ? a : b`, which binds looser than
 		// every binary operator.
 		return true
+	case ir.ExprMath:
+		return w.isBarePackChain(k)
 	default:
 		return false
 	}
+}
+
+// isBarePackChain reports whether a math expression is written as a bare chain of `|`:
+// below Metal 2.1 pack4xU8 / pack4xU8Clamp expand to (v[0] & 0xFF) | ((v[1] & 0xFF) << 8) | ...
+// without outer parentheses (the signed variants are wrapped in uint(...)).
+func (w *Writer) isBarePackChain(m ir.ExprMath) bool {
+	return (m.Fun == ir.MathPack4xU8 || m.Fun == ir.MathPack4xU8Clamp) && w.options.LangVersion.Less(Version2_1)
 }
 
 // needsParensInContext checks if an expression would need parentheses when
@@ -1009,7 +1018,7 @@ func (w *Writer) needsParensInContext(handle ir.ExpressionHandle) bool {
 		}
 	}
 	expr := w.currentFunction.Expressions[handle]
-	switch expr.Kind.(type) {
+	switch k := expr.Kind.(type) {
 	case ir.ExprBinary:
 		return true
 	case ir.ExprSelect:
@@ -1018,6 +1027,8 @@ func (w *Writer) needsParensInContext(handle ir.ExpressionHandle) bool {
 		// ArrayLength expands to "1 + ..." which needs parenthesization.
 		// Matches Rust naga: ArrayLength uses is_scoped wrapping.
 		return true
+	case ir.ExprMath:
+		return w.isBarePackChain(k)
 	}
 	return false
 }
